@@ -109,7 +109,8 @@ type vfTokInfo struct {
 	key                    uint64
 	state                  int
 	evicts, rejects, exits int
-	issued, lag            int // client calls at issue time; client calls that passed before the insert was applied
+	issued, lag            int  // client calls at issue time; client calls that passed before the insert was applied
+	superseded             bool // this value was read, and later a value written after it was read under the same key
 }
 
 type vfBlockedDel struct {
@@ -146,7 +147,11 @@ type vfSM struct {
 	maxCost    int64
 	toks       map[uint64]*vfTokInfo
 	nextTok    uint64
-	exempt     bool // an applied update/duplicate raised an accounted cost (C03 carve-out)
+	realigned  bool              // alignFifo dropped reference entries in this step
+	bufBefore  int               // len(setBuf) right before a direct client Set (-1: unknown, e.g. a Set issued from inside a callback)
+	nowhere    map[uint64]uint64 // key -> value whose Set returned true although it found no place in the write buffer (new key, no ttl)
+	lastRead   map[uint64]uint64 // key -> value returned by the most recent successful read (C02, second sentence)
+	exempt     bool              // an applied update/duplicate raised an accounted cost (C03 carve-out)
 	waiters    map[int]*vfWaiter
 	nextWid    int
 	blockedDel *vfBlockedDel    // a Del call blocked on the full write buffer (its goroutine is parked)
@@ -176,6 +181,7 @@ type vfSM struct {
 
 type vfSMStats struct {
 	evictions, rejections, drops, sweepsWithEvict, dels, clears int
+	realigned                                                   int // steps at which the reference FIFO had to be re-aligned with the cache's write buffer
 	clearBufferedNew, clearBufferedOther                        bool
 	admissionsAfterEvict                                        int
 	costChangeBefore                                            bool
@@ -198,7 +204,7 @@ func vfNewSM(cfg vfCfg) (*vfSM, func()) {
 	setBufSize, bucketDurationSecs = cfg.SetBufSize, cfg.BucketSecs
 	restore := func() { setBufSize, bucketDurationSecs = oldBuf, oldBucket }
 	s := &vfSM{cfg: cfg, resident: map[uint64]vfEnt{}, acct: map[uint64]int64{}, maxCost: cfg.MaxCost,
-		toks: map[uint64]*vfTokInfo{}, nextTok: 1, waiters: map[int]*vfWaiter{}, everTTL: map[uint64]bool{}, swept: map[uint64]bool{}, tainted: map[uint64]bool{}, deleted: map[uint64]bool{}}
+		toks: map[uint64]*vfTokInfo{}, nextTok: 1, lastRead: map[uint64]uint64{}, nowhere: map[uint64]uint64{}, bufBefore: -1, waiters: map[int]*vfWaiter{}, everTTL: map[uint64]bool{}, swept: map[uint64]bool{}, tainted: map[uint64]bool{}, deleted: map[uint64]bool{}}
 	conf := vfBuildConf(cfg, s)
 	s.t0 = time.Now()
 	s.lastTick = s.t0
